@@ -106,6 +106,24 @@ Theorem C01_routed_to_lpm_owner : forall st evs p ep rcv ctr pk mtu, clean st ->
 Proof. exact routed_to_lpm_owner. Qed.
 Print Assumptions C01_routed_to_lpm_owner.
 
+(* ----------------------------------------------------------- device down and up *)
+
+Theorem C01_down_drops : forall st pkts,
+  s_up st = false -> step st (TunBatch pkts) = (st, []).
+Proof. exact down_drops. Qed.
+Print Assumptions C01_down_drops.
+
+Theorem C01_down_clears : forall st,
+  Forall (fun p => p_sess p = None /\ p_staged p = [] /\ p_init_out p = false)
+         (s_peers (fst (step st Down))) /\
+  snd (step st Down) = [] /\ s_up (fst (step st Down)) = false.
+Proof. exact down_clears. Qed.
+Print Assumptions C01_down_clears.
+
+Theorem C01_up_silent : forall st, snd (step st Up) = [] /\ s_up (fst (step st Up)) = true.
+Proof. exact up_silent. Qed.
+Print Assumptions C01_up_silent.
+
 (* ------------------------------------------------------------------ non-vacuity *)
 
 Example C01_pad_values :
@@ -124,7 +142,7 @@ Definition ex_tbl : list entry :=
 Definition ex_peer (ep : option N) : peer :=
   {| p_ep := ep; p_sess := None; p_hs_recent := false; p_init_out := false; p_staged := [] |}.
 Definition ex_st (ep : option N) : state :=
-  {| s_tbl := ex_tbl; s_mtu := 1420; s_peers := [ex_peer None; ex_peer ep] |}.
+  {| s_tbl := ex_tbl; s_mtu := 1420; s_up := true; s_peers := [ex_peer None; ex_peer ep] |}.
 
 (* The remote initiates: response, then each routable packet goes to peer 1
    under the announced index with consecutive counters; the stray packet and the
@@ -147,4 +165,14 @@ Example C01_nonvacuous_initiator :
   outs step (ex_st (Some 3)) [TunBatch [ex_pkt]; AnswerHs 1 9 4; AnswerHs 1 8 4;
                               Expire 1; TunBatch [ex_pkt]]
   = [[OInit 1 3]; [OData 1 4 9 0 ex_pkt 1420]; []; []; []].
+Proof. vm_compute. reflexivity. Qed.
+
+(* Down and up again: the session of the first handshake is gone, the packet
+   read while the device is down is dropped (not retained), the packet read
+   after Up waits behind a fresh initiation and is transmitted exactly once,
+   with counter 0 under the newly announced index. *)
+Example C01_nonvacuous_down_up :
+  outs step (ex_st (Some 3)) [RefHs 1 7 3; Down; TunBatch [ex_pkt]; Up; TunBatch [ex_pkt];
+                              AnswerHs 1 9 4]
+  = [[OResp 1 3 7]; []; []; []; [OInit 1 3]; [OData 1 4 9 0 ex_pkt 1420]].
 Proof. vm_compute. reflexivity. Qed.
